@@ -42,7 +42,7 @@ driver-only: extract-only
 
 # no axioms, no admits, no disabled checks anywhere in the development
 gate:
-	@! grep -rnE '\b(Admitted|admit|Axiom|Parameter|Conjecture|Admit Obligations)\b|Unset Guard|bypass_check|type-in-type|impredicative-set|Unset Universe|Unset Positivity' coq --include='*.v' | grep -v '^coq/Generated/.*(\* ' || (echo "GATE FAILED"; exit 1)
+	@! grep -rnE '^[[:space:]]*(Local |Global |#\[[a-z]*\] )?(Axiom|Axioms|Parameter|Parameters|Conjecture|Conjectures|Variable|Variables|Hypothesis|Hypotheses|Context)[[:space:]]|\b(Admitted|admit|give_up)\b|Admit Obligations|Unset Guard|Guard Checking|bypass_check|type-in-type|impredicative-set|Unset Universe Checking|Unset Positivity|Positivity Checking|native_compute' coq --include='*.v' || (echo "GATE FAILED"; exit 1)
 
 clean:
 	rm -rf build; cd coq && find . -name '*.vo' -o -name '*.vok' -o -name '*.vos' -o -name '*.glob' -o -name '.*.aux' | xargs rm -f; rm -f coq/Makefile.coq coq/Makefile.coq.conf coq/.Makefile.coq.d
